@@ -5,6 +5,7 @@ use super::{
 use crate::app::compass::compass_app_error::CompassAppError;
 use serde::{Deserialize, Serialize};
 use std::{
+    io::{BufRead, BufReader},
     path::PathBuf,
     sync::{Arc, Mutex},
 };
@@ -38,6 +39,15 @@ impl ResponseOutputPolicy {
                 // write_mode,
             } => {
                 let output_file_path = PathBuf::from(filename);
+                // when appending to an existing file, rows follow the header already in it
+                let existing_header = std::fs::File::open(&output_file_path)
+                    .ok()
+                    .and_then(|f| BufReader::new(f).lines().next())
+                    .and_then(|line| line.ok());
+                let format = &match existing_header {
+                    Some(header) => format.with_header_order(&header),
+                    None => format.clone(),
+                };
                 let file = WriteMode::Append.open_file(&output_file_path, format)?;
 
                 // wrap the file in a mutex so we can share it between threads
